@@ -34,6 +34,8 @@ THEOREMS = [
     # headline statement; division-free normal clause; the relational model used on float ties is sound
     'C14.free_surface_basis_correct', 'C14.normal_cofactor', 'C14.accepted_of_run', 'C14.accepted_properties',
     'C14.inRange_iff', 'C14.validBasis_sound', 'C14.validBasis_properties', 'C14.zone_conventional', 'C14.p2c_c2p',
+    # documented refusal for an incompatible cut vector (against C05's normalised cell)
+    'C14.cutCompatible_iff_normalized',
     # Miller-Bravais input / output
     'C14.plane4to3_spec', 'C14.vector3to4_spec',
     # FreeSurface: termination shifts
